@@ -60,6 +60,18 @@ CLAIMED = {
     text="Lean theorems: seeded key generation in the model is definitionally libsodium's construction (box: SHA-512(seed)[0..32] then base-point multiple for seeds of any length; kx: BLAKE2b-32; sign: seed‖A), the converted secret key is the signing scalar. Tied to the code by impl vs model vs Lean spec vs libsodium on seeds of every length 0..=128 and the conversion-consistency check on every generated pair.",
     design="§7 C13", technique="Lean 4 proof (constructions, clamp facts) + differential correspondence impl/model/spec/libsodium",
     note="the Ed→Montgomery map commuting with scalar multiplication is a hypothesis (group law not in Mathlib)."),
+ "C14": dict(
+    text="Lean theorems over a kernel/allocator/region model of protected.rs (symbolic page size): the mprotect call of every wrapper covers exactly the pages holding data for every length (and the len−1 variant misses the last page iff len ≡ 1 mod P); an invariant — data pages carry exactly the rights of the type state, are locked iff the type says Locked, both guard pages are inaccessible, live regions are page-disjoint, contents unchanged by transitions — holds after every operation sequence (induction over arbitrary histories); after the last drop nothing is locked or has altered rights. Tied to the code by sequences over the type-state graph observed through /proc/self/maps, VmLck, checksums and forked fault probes.",
+    design="§7 C14", technique="Lean 4 proof (page arithmetic, invariant by induction over operation histories) + differential correspondence impl/model through /proc and fault probes",
+    note="Linux mprotect/mlock semantics, glibc, /proc reporting are modelled, not verified; nightly build only."),
+ "C15": dict(
+    text="Lean theorem over the allocator/Vec/region model: for every operation sequence (create, fill, resize up/down, clone, lock, unlock, protect, drop) every release event reaches the system allocator with all layout.size() bytes zero — an invariant of deallocate, independent of the Vec growth policy; the unwiped variant is shown to violate it. Tied to the code through hook H2 (address, size, non-zero count at every release).",
+    design="§7 C15", technique="Lean 4 proof (release-trace invariant) + differential correspondence through the allocator release observer",
+    note="hook H2 is trusted to report what is freed; nightly build only."),
+ "C19": dict(
+    text="Lean theorems over the protected-memory model with an arbitrary lock-refusal oracle: every Result-returning constructor/transition yields ok or err, never panic; a refused lock leaves every other region's pages untouched and the consumed region wiped and unlocked; drop still restores everything. Tied to the code by re-running the C14 sequences with the k-th and all later mlock requests refused by an LD_PRELOAD shim.",
+    design="§7 C19", technique="Lean 4 proof (no-panic and cleanup under any refusal oracle) + fault-injection correspondence (LD_PRELOAD mlock shim)",
+    note="non-Result operations (Clone, resize of a locked region, Default) may panic when locking is refused: outside the property's statement."),
  "C17": dict(
     text="Lean theorem over the buffer-level models: whenever an opening function (box/secretbox/sealed/afternm, detached and in-place, stream pull) returns err, the caller's message buffer and tag variable equal their initial values — for every input, not only single corruptions. Tied to the code by the exhaustive single-fault family with sentinel-filled buffers.",
     design="§7 C17", technique="Lean 4 proof (failed open leaves outputs untouched) + exhaustive single-fault differential enumeration with sentinel buffers",
